@@ -250,12 +250,18 @@ func (lb *LoadBalancer) setupCircuitBreaker(cfg *config.Config) {
 		SuccessThreshold: uint32(cfg.CircuitBreaker.SuccessThreshold), // #nosec G115 - config validated to be positive
 		OnStateChange: func(name string, from circuitbreaker.State, to circuitbreaker.State) {
 			logging.L().Info().Str("circuit_breaker", name).Str("from", from.String()).Str("to", to.String()).Msg("circuit breaker state changed")
-			failureCount, successCount, requestCount := lb.circuitBreaker.Counts()
-			lb.metricsCollector.UpdateCircuitBreakerState(name, to.String(), metrics.CircuitBreakerCounts{
-				FailureCount: failureCount,
-				SuccessCount: successCount,
-				RequestCount: requestCount,
-			})
+			// The breaker invokes this callback while holding its own lock and Counts()
+			// takes that lock again, so reading the counts here would block the request
+			// that caused the state change (and every later one) forever. Publish the
+			// metrics from a separate goroutine, which runs once the lock is released.
+			go func() {
+				failureCount, successCount, requestCount := lb.circuitBreaker.Counts()
+				lb.metricsCollector.UpdateCircuitBreakerState(name, to.String(), metrics.CircuitBreakerCounts{
+					FailureCount: failureCount,
+					SuccessCount: successCount,
+					RequestCount: requestCount,
+				})
+			}()
 		},
 	}
 
